@@ -43,6 +43,11 @@ class Ctx:
         self.work = os.path.join(ROOT, 'work', prop, tier)
         shutil.rmtree(self.work, ignore_errors=True)
         os.makedirs(self.work, exist_ok=True)
+        rd = os.path.join(ROOT, 'work', 'replays')
+        if os.path.isdir(rd) and tier in ('quick', 'thorough'):
+            for f in os.listdir(rd):
+                if f.startswith(prop + '_'):
+                    os.remove(os.path.join(rd, f))
         self.t0 = time.time()
         self.log = []
         self.proof = dict(obligations=0, discharged=0, theorems=[], axioms={}, problems=[])
